@@ -75,6 +75,9 @@ func (e *Engine) lookupStub(m *Machine, fn *ssa.Function, name string) stubFn {
 		if h := e.intrinsic(fn.Name()); h != nil {
 			return h
 		}
+		if h := e.fsIntrinsic(fn.Name()); h != nil {
+			return h
+		}
 		m.end(endEngineError, "unknown intrinsic %s", fn.Name())
 	}
 	if m.cfg.Redirect != nil {
